@@ -1,11 +1,11 @@
 package rules
 
 import (
-	"regexp"
 	"fmt"
 	"go/ast"
 	"go/token"
 	"go/types"
+	"regexp"
 	"regexp/syntax"
 	"strings"
 
@@ -14,7 +14,7 @@ import (
 
 func init() {
 	register(Property{
-		ID: "C20",
+		ID:          "C20",
 		Explanation: "Decided statically: A5 every index/slice expression in the inflection function is bounded (length guard on the submatch slice; the irregular replacement is read through a comma-ok map lookup; non-emptiness of the matched word and of every replacement follows from the checked shape of the irregular pattern and of the constant rule tables, R3); R1 the rebuilt word is made of the match's own captures and the table value, never of a fixed offset of the whole input; R2 functions reachable from Pluralize/Singularize write no shared state except through sync.Map/sync.OnceValue, and the rule tables are only written by functions called (transitively) from init; determinism: no schedule-dependent order source in pkg/inflector. R3 pattern shape: two capture groups, first `.*`, a word boundary between them, second anchored at end of text, case-insensitive; every IrregularItem has a non-empty lower-case ASCII Word and a Replacement starting with the same letter. R4 the irregular attempt precedes the uninflected test (their word lists overlap, so the other order makes a word inflect differently on its own than behind a prefix); R3 also demands the dot-all flag, so a line break in the prefix is kept. R5 pass-through wrappers - every function between Pluralize/Singularize and the rule application returns its input, the next function's result or the cached thunk's result unchanged (no post-processing that looks at the whole input). R3 reads the irregular pattern as a template (Sprintf or concatenation); R6 every write into a rule's memo goes through the method's own receiver, is keyed by the method's own argument and stores the receiver's own computation on it; A5 accepts the result of slices.IndexFunc on the same unchanged base once -1 is excluded. R7 a rewriting rule anchored on a whole word is backed by an irregular entry for that word in the same rule set. NOT decided: linguistic correctness of the tables; that the irregular word is inflected exactly as on its own for every input (value level).",
 		Assumptions: append([]string{"*regexp.Regexp and sync.Map/sync.OnceValue are safe for concurrent use (documented)"}, commonAssumptions...),
 		Run:         runC20,
@@ -556,26 +556,26 @@ func c20R3(p *core.Program, r *core.Report) bool {
 		}
 	}
 	for _, sb := range storeBodies {
-	ast.Inspect(sb, func(n ast.Node) bool {
-		as, isAs := n.(*ast.AssignStmt)
-		if !isAs || len(as.Lhs) != 1 {
+		ast.Inspect(sb, func(n ast.Node) bool {
+			as, isAs := n.(*ast.AssignStmt)
+			if !isAs || len(as.Lhs) != 1 {
+				return true
+			}
+			ix, isIx := as.Lhs[0].(*ast.IndexExpr)
+			if !isIx {
+				return true
+			}
+			if f := core.FieldOf(info, ix.X); f == nil || f.Name() != "irregularMap" {
+				return true
+			}
+			stores++
+			kf, vf := core.FieldOf(info, ix.Index), core.FieldOf(info, as.Rhs[0])
+			good := kf != nil && vf != nil && kf.Name() == "Word" && vf.Name() == "Replacement"
+			if !r.Check(good, rule, initf, "irregularMap[item.Word] = item.Replacement", as.Pos(), "map is keyed by Word with the Replacement as value", "irregularMap is not filled as Word -> Replacement") {
+				ok = false
+			}
 			return true
-		}
-		ix, isIx := as.Lhs[0].(*ast.IndexExpr)
-		if !isIx {
-			return true
-		}
-		if f := core.FieldOf(info, ix.X); f == nil || f.Name() != "irregularMap" {
-			return true
-		}
-		stores++
-		kf, vf := core.FieldOf(info, ix.Index), core.FieldOf(info, as.Rhs[0])
-		good := kf != nil && vf != nil && kf.Name() == "Word" && vf.Name() == "Replacement"
-		if !r.Check(good, rule, initf, "irregularMap[item.Word] = item.Replacement", as.Pos(), "map is keyed by Word with the Replacement as value", "irregularMap is not filled as Word -> Replacement") {
-			ok = false
-		}
-		return true
-	})
+		})
 	}
 	if stores == 0 {
 		r.Anchor(rule, "store into Rule.irregularMap in Init")
